@@ -23,7 +23,7 @@ SPEC = {
     "assumptions": ["'conformant' = what the CTfile specification permits and the harness renderer produces; headers ASCII; no trailing blanks after a continuation dash",
                     "coordinates compare as float(token)"],
     "monitors_required": ["c07_model_compare", "c07_explicit_default_relation"],
-    "required_obs": {"quick": ["split_class", "multi_split_lines", "star_files", "extra_kw/EXACHG", "explicit_default", "explicit_default_mass_on_DT", "dt_seen", "cov_graph_from_file", "cov_every_offset_lines",
+    "required_obs": {"quick": ["split_class", "multi_split_lines", "star_files", "star_endpoints_ge_10", "extra_kw/EXACHG", "explicit_default", "explicit_default_mass_on_DT", "dt_seen", "cov_graph_from_file", "cov_every_offset_lines",
                                "cov_zero_bond_file", "cov_crlf"]},
     "watchdog_s": {"quick": 900, "thorough": 5400},
 }
@@ -50,7 +50,8 @@ def random_style(rng, mol):
     st.dt_symbols = rng.random() < 0.6
     st.split = rng.choice(["none", "random", "random", "multi"])
     st.split_lines = rng.choice(["atoms+bonds", "all", "atoms", "bonds", "counts"])
-    st.star = rng.random() < 0.25 and nb > 0
+    st.star = (rng.random() < 0.25 or mol.cls == "M11") and nb > 0
+    st.star_all = mol.cls == "M11" and rng.random() < 0.7
     st.header = rng.choice([None, ["", "", ""], ["name with - dash", "  prog", "comment-"], ["x" * 80, "y", "M  V30 looks like ctab"]])
     st.trailing_blocks = rng.random() < 0.2
     st.after_end = rng.choice(["", "", "$$$$", "\n> <prop>\n1\n\n$$$$"])
@@ -104,6 +105,8 @@ def read(ctx, text, via_file, tag):
 
 def gen_mol(rng):
     r = rng.random()
+    if r < 0.06:
+        return G.hub(rng)
     if r < 0.5:
         mol = G.random_organic(rng, 1, 18)
     elif r < 0.65:
